@@ -1,6 +1,6 @@
 """C09 — string literals decode exactly: tables, constants and look-ahead discipline."""
 from ..facts import callee_is, op_local, op_place, op_int, op_bytes, norm_path, FactError
-from ..analysis import backward_slice, bool_switch_edges, forward_derived, return_kinds
+from ..analysis import backward_slice, bool_switch_edges, forward_derived, return_kinds, reachable_cp, switch_edges
 from .. import oracles
 from .c01 import short
 
@@ -118,18 +118,63 @@ def consts_in(fn, tys=("u32", "u8", "usize", "i32", "u64")):
     return out
 
 
+def _helpers(prog, f):
+    """f and the private same-crate helpers it calls directly (a decoder may delegate its replacement /
+    error arm to a helper); reader methods are not part of the decoder"""
+    out = [f]
+    for b, t in f.calls():
+        g = prog.fns.get(t["callee"])
+        if g is None or g in out or g.crate != "sonic_rs" or callee_is(t, *ADVANCE) or "hex_to_u32" in g.id:
+            continue
+        if (g.impl or {}).get("self_ty") == (f.impl or {}).get("self_ty") and (f.impl or g.id.rsplit("::", 1)[0] == f.id.rsplit("::", 1)[0]):
+            out.append(g)
+    return out
+
+
+def _cut_points(f, lo=0xD000, hi=0xE100):
+    """comparisons of a value with a constant in [lo, hi], normalised to the half-open cut they make:
+    x < C, x >= C cut at C;  x <= C, x > C cut at C+1;  promoted Range bounds cut at start / end,
+    RangeInclusive bounds at start / end+1"""
+    cuts = set()
+    for b, i, s in f.assigns():
+        rv = s["rv"]
+        if rv["k"] != "binop" or rv["op"] not in ("Lt", "Le", "Gt", "Ge"):
+            continue
+        ca, cb = op_int(rv["a"]), op_int(rv["b"])
+        op = rv["op"]
+        if ca is not None and cb is None:      # C op x  ==  x op' C
+            op = {"Lt": "Gt", "Le": "Ge", "Gt": "Lt", "Ge": "Le"}[op]
+            c = ca
+        elif cb is not None and ca is None:
+            c = cb
+        else:
+            continue
+        if lo <= c <= hi:
+            cuts.add(c if op in ("Lt", "Ge") else c + 1)
+    for b, s, o in f.const_operands():
+        ty = o.get("ty", "")
+        if "bytes" in o and ("Range<u32>" in ty or "RangeInclusive<u32>" in ty):
+            raw = bytes.fromhex(o["bytes"])
+            vals = [int.from_bytes(raw[i:i + 4], "little") for i in range(0, min(len(raw), 8) - 3, 4)]
+            if len(vals) == 2 and lo <= vals[0] <= hi:
+                cuts.add(vals[0])
+                cuts.add(vals[1] + 1 if "RangeInclusive" in ty else vals[1])
+    return cuts
+
+
 def r09_3(ctx):
     prog = ctx.prog()
     dec1 = prog.find("Parser::parse_escaped_utf8")
     dec2 = prog.find("unicode::handle_unicode_codepoint_mut")
-    need = {0xD800, 0xDC00, 0xE000, 10, 0x10000}
+    need = {0xD800, 0xDC00, 10, 0x10000}
     for f in (dec1, dec2):
         cs = consts_in(f)
         ctx.ob("R09.3", f"surrogate-constants:{short(f.id)}", need <= cs, f.loc(), f"UTF-16 surrogate arithmetic constants present: {sorted(hex(x) for x in need & cs)} (need {sorted(hex(x) for x in need)})")
-    # unexpected range constants in the surrogate decoders (e.g. 0xDBFF / 0xDFFF off-by-one variants)
+    # the classification of the first code unit cuts the range at D800, DC00 and E000 and nowhere else
+    # (0xDBFF / 0xDFFF as exclusive bounds, 0xDC00 / 0xE000 as inclusive ones are the off-by-one variants)
     for f in (dec1, dec2):
-        cs = {x for x in consts_in(f) if 0xD000 <= x <= 0xE100}
-        ctx.ob("R09.3", f"surrogate-bounds:{short(f.id)}", cs <= {0xD800, 0xDC00, 0xE000}, f.loc(), f"range bounds used: {sorted(hex(x) for x in cs)} (half-open ranges D800..DC00..E000)")
+        cuts = _cut_points(f)
+        ctx.ob("R09.3", f"surrogate-bounds:{short(f.id)}", cuts == {0xD800, 0xDC00, 0xE000}, f.loc(), f"the code unit is classified by cuts at {sorted(hex(x) for x in cuts)} (half-open ranges D800..DC00..E000)")
     cu = prog.find("unicode::codepoint_to_utf8")
     cs = consts_in(cu)
     for name, want in (("thresholds", {0x7F, 0x7FF, 0xFFFF, 0x10FFFF}), ("lead/continuation", {192, 224, 240, 128, 63}), ("shifts", {6, 12, 18})):
@@ -139,16 +184,15 @@ def r09_3(ctx):
     okc = all((s["rv"]["op"] == "Le" and op_int(s["rv"]["b"]) in (0x7F, 0x7FF, 0xFFFF, 0x10FFFF)) or op_int(s["rv"]["b"]) not in (0x7F, 0x7FF, 0xFFFF, 0x10FFFF, 0x80, 0x800, 0x10000, 0x110000) for s in les)
     ctx.ob("R09.3", "utf8-threshold-comparisons", okc and len(les) >= 4, cu.loc(), f"{len(les)} threshold comparisons, all of the form cp <= bound")
     # lossy replacement constant
-    rep = []
-    for f in (dec1, prog.find("unicode::repr_utf16_surrogate")):
-        rep.append(0xFFFD in consts_in(f))
+    rep = [any(0xFFFD in consts_in(g) for g in _helpers(prog, dec1)), 0xFFFD in consts_in(prog.find("unicode::repr_utf16_surrogate"))]
     ctx.ob("R09.3", "replacement:U+FFFD", all(rep), dec1.loc(), "lossy arms produce U+FFFD")
-    # every Ok(constant) of parse_escaped_utf8 is 0xFFFD
+    # every Ok(constant) of parse_escaped_utf8 (and of the helpers its arms delegate to) is 0xFFFD
     oks = []
-    for b, i, s in dec1.assigns():
-        rv = s["rv"]
-        if rv["k"] == "agg" and rv.get("variant") == "Ok" and rv["f"] and rv["f"][0]["k"] == "const":
-            oks.append(op_int(rv["f"][0]))
+    for g in _helpers(prog, dec1):
+        for b, i, s in g.assigns():
+            rv = s["rv"]
+            if rv["k"] == "agg" and rv.get("variant") == "Ok" and rv["f"] and rv["f"][0]["k"] == "const":
+                oks.append(op_int(rv["f"][0]))
     ctx.ob("R09.3", "replacement:only-constant", bool(oks) and all(v == 0xFFFD for v in oks), dec1.loc(), f"constant results of parse_escaped_utf8: {sorted(set(hex(v) for v in oks))}")
 
 
@@ -247,6 +291,36 @@ def r09_5(ctx):
 ADVANCE = ("Reader::eat", "Reader::next_n", "Reader::next", "Reader::set_index")
 
 
+def _flag_edges(fn, field):
+    """(true_targets, false_targets) of the bool switches whose condition is (a negation / copy of) a load of the
+    configuration flag `field`; only targets entered by that edge alone are returned"""
+    tt, ft = set(), set()
+    for b, t in fn.terms():
+        if t["k"] != "switch" or t.get("dty") != "bool":
+            continue
+        l = op_local(t["discr"])
+        if l is None:
+            continue
+        sl, leaves = backward_slice(fn, [l])
+        places = [lf for lf in leaves if lf[0] == "place"]
+        if len(places) != 1 or field not in [e[2] for e in places[0][1][1] if isinstance(e, list) and e[0] == "."] or any(lf[0] not in ("place", "param") for lf in leaves):
+            continue
+        negs = sum(1 for x in sl | {l} for d in fn.defs.get(x, []) if d[0] == "stmt" and d[3]["rv"]["k"] == "unop" and d[3]["rv"]["op"] == "Not")
+        edges = dict((v, tg) for v, tg in [(int(v), tg) for v, tg in t["targets"]] + [(None, t["otherwise"])])
+        true_t, false_t = edges.get(1, edges.get(None)), edges.get(0, edges.get(None))
+        if negs % 2:
+            true_t, false_t = false_t, true_t
+        if true_t is not None and len(fn.preds[true_t]) == 1:
+            tt.add(true_t)
+        if false_t is not None and len(fn.preds[false_t]) == 1:
+            ft.add(false_t)
+    return tt, ft
+
+
+def _ok_const_blocks(g, v):
+    return [b for b, i, s in g.assigns() if s["rv"]["k"] == "agg" and s["rv"].get("variant") == "Ok" and s["rv"]["f"] and op_int(s["rv"]["f"][0]) == v]
+
+
 def r09_6(ctx):
     prog = ctx.prog()
     f = prog.find("Parser::parse_escaped_utf8")
@@ -254,22 +328,35 @@ def r09_6(ctx):
     ctx.floor("R09.6", "reader-advancing calls in parse_escaped_utf8", len(adv), 2)
     # the first one: dominates all others
     first = [a for a in adv if all(f.dominates(a[0], o[0]) for o in adv)]
-    rep_blocks = []
-    for b, i, s in f.assigns():
-        rv = s["rv"]
-        if rv["k"] == "agg" and rv.get("variant") == "Ok" and rv["f"] and op_int(rv["f"][0]) == 0xFFFD:
-            rep_blocks.append(b)
-    ctx.floor("R09.6", "lossy replacement returns", len(rep_blocks), 3)
+    # replacement sites: Ok(0xFFFD) built here, or a call of a helper that builds it; a helper's replacement is
+    # `lossy-only` when it lies behind the helper's own test of cfg.utf8_lossy
+    rep_sites = [(b, False) for b in _ok_const_blocks(f, 0xFFFD)]
+    for g in _helpers(prog, f)[1:]:
+        rb = _ok_const_blocks(g, 0xFFFD)
+        if not rb:
+            continue
+        gt, _ = _flag_edges(g, "utf8_lossy")
+        lossy_only = not (set(rb) & g.reachable_from(0, avoid=gt))
+        rep_sites += [(b, lossy_only) for b, t in f.calls() if t["callee"] == g.id]
+    ctx.floor("R09.6", "lossy replacement returns", len(rep_sites), 1)
     if len(first) != 1:
         ctx.ob("R09.6", "first-advance", False, f.loc(), "cannot identify the read of the first \\uXXXX (fail closed)")
         return
+    # the flag is read-only here, so an advance made only when it is false cannot be followed by a replacement made only when it is true
+    ftrue, ffalse = _flag_edges(f, "utf8_lossy")
+    flag_written = any("utf8_lossy" in [e[2] for e in s_["lhs"][1] if isinstance(e, list) and e[0] == "."] for g in _helpers(prog, f) for _, _, s_ in g.assigns())
     bad = []
     for b, t in adv:
         if (b, t) == first[0]:
             continue
-        hit = [r for r in rep_blocks if r in f.reachable_from(b)]
-        if hit:
+        strict_only = not flag_written and b not in f.reachable_from(0, avoid=ffalse)
+        for r, lossy_only in rep_sites:
+            if r not in f.reachable_from(b):
+                continue
+            if strict_only and (lossy_only or r not in f.reachable_from(b, avoid=ftrue)):
+                continue
             bad.append((t["callee"].rsplit("::", 1)[-1], op_int(t["args"][1]) if len(t["args"]) > 1 else None, t["ln"]))
+            break
     ctx.ob("R09.6", "copying-decoder:lookahead-not-consumed", not bad, f.loc(),
            "every path to a lossy U+FFFD result has advanced the reader only past the first escape (the look-ahead is peeked)" if not bad else
            f"the look-ahead after a high surrogate is consumed ({bad}) on a path that then returns the lossy replacement: the bytes that followed are lost")
@@ -312,15 +399,24 @@ def r09_8(ctx):
                         e = bool_switch_edges(f, s_["lhs"][0])
                         if e:
                             match_t, mismatch_t = (e[0], e[1]) if rv["op"] == "Eq" else (e[1], e[0])
-                            tests.setdefault(c, []).append((b, match_t, mismatch_t))
+                            tests.setdefault(c, []).append((b, match_t, [mismatch_t]))
+        # pattern form: `[b'\\', b'u', ..]` is a switch on the byte itself
+        for b, t in f.terms():
+            if t["k"] == "switch" and t.get("dty") == "u8":
+                ed = switch_edges(f, b)
+                for c in (92, 117):
+                    m = [tg for v, tg in ed if v == c]
+                    if m:
+                        tests.setdefault(c, []).append((b, m[0], [tg for v, tg in ed if v != c and tg != m[0]]))
         ok = 92 in tests and 117 in tests
         bad = []
         for c, lst in tests.items():
-            for b, match_t, mismatch_t in lst:
+            for b, match_t, mismatch_ts in lst:
                 for hb, ht in second:
                     if f.dominates(b, hb) or hb in f.reachable_from(b):
-                        if hb in f.reachable_from(mismatch_t, avoid={match_t}) and hb in f.reachable_from(mismatch_t):
-                            # reachable from the mismatch edge without going through the match edge of the same test
+                        # reachable from a mismatch edge without going through the match edge of the same test; a named
+                        # condition (`let is_escape = a == b'\\' && b == b'u'`) is followed by the constant it materialises
+                        if any(hb in reachable_cp(f, mt, avoid={match_t}) for mt in mismatch_ts):
                             bad.append((chr(c), ht["ln"]))
         ctx.ob("R09.8", f"{short(f.id)}:second-escape-prefix", ok and not bad, f.loc(),
                "the low surrogate's digits are decoded only on the path where both prefix bytes matched `\\u`" if ok and not bad else
@@ -334,6 +430,36 @@ def r09_7(ctx):
     for o in ctx.obligations:
         if o["rule"] == "R03.5":
             o["rule"] = "R09.7"
+
+
+def _r099_tags(prog, h, x, depth=0):
+    """what an addend derives from: 'off' (the validator's offset) / 'idx' (the reader's index field); a closure's
+    captured variable is followed to the place the enclosing function captured"""
+    tags = set()
+    if x is None or depth > 2:
+        return tags
+    xs, xl = backward_slice(h, [x])
+    for lf in xl:
+        if lf[0] == "call" and callee_is(lf[2], "offset", "valid_up_to"):
+            tags.add("off")
+        if lf[0] == "place":
+            proj = lf[1][1]
+            if "index" in [e[2] for e in proj if isinstance(e, list) and e[0] == "."]:
+                tags.add("idx")
+            elif h.parent_fn and lf[1][0] == 1:
+                ks = [e[1] for e in proj if isinstance(e, list) and e[0] == "."]
+                par = prog.fns.get(h.parent_fn)
+                if ks and par is not None:
+                    for b, i, s_ in par.assigns():
+                        rv = s_["rv"]
+                        if rv["k"] == "agg" and rv.get("ak") == "closure" and ks[0] < len(rv["f"]) and (rv.get("def") in (None, h.id)):
+                            o = rv["f"][ks[0]]
+                            pl_ = op_place(o)
+                            if pl_ is not None:
+                                if "index" in [e[2] for e in pl_[1] if isinstance(e, list) and e[0] == "."]:
+                                    tags.add("idx")
+                                tags |= _r099_tags(prog, par, pl_[0], depth + 1) - {"off"}
+    return tags
 
 
 def r09_9(ctx):
@@ -383,19 +509,7 @@ def r09_9(ctx):
                 rv = ss["rv"]
                 if rv["k"] == "binop" and rv["op"].startswith("Add"):
                     la, lb = op_local(rv["a"]), op_local(rv["b"])
-                    srcs = []
-                    for x in (la, lb):
-                        if x is None:
-                            srcs.append(set())
-                            continue
-                        xs, xl = backward_slice(h, [x])
-                        tags = set()
-                        for lf in xl:
-                            if lf[0] == "call" and callee_is(lf[2], "offset", "valid_up_to"):
-                                tags.add("off")
-                            if lf[0] == "place" and "index" in [e[2] for e in lf[1][1] if isinstance(e, list) and e[0] == "."]:
-                                tags.add("idx")
-                        srcs.append(tags)
+                    srcs = [_r099_tags(prog, h, x) for x in (la, lb)]
                     if ("off" in srcs[0] and "idx" in srcs[1]) or ("idx" in srcs[0] and "off" in srcs[1]):
                         rebased = True
         ctx.ob("R09.9", f"rebased-offset@{len([o for o in ctx.obligations if o['rule'] == 'R09.9'])}", (not off) or rebased, g.loc(s_["ln"]),
